@@ -897,6 +897,8 @@ func (fc *freshCtx) fresh1(v ssa.Value) (bool, string) {
 		return true, ""
 	case *ssa.MakeSlice:
 		return true, ""
+	case *ssa.MakeMap:
+		return true, ""
 	case *ssa.Phi:
 		for _, e := range x.Edges {
 			if ok, why := fc.fresh(e); !ok {
